@@ -291,6 +291,14 @@ partial def etyOfJson (j : Json) : Except String Evo.ETy := do
     | "fixed" => pure (.array t (.fixed (← (← (k[1]?.getD Json.null).getArr?).toList.mapM jNat)))
     | kt => throw s!"bad array kind {kt}"
   | "map" => pure (.map (← etyOfJson (arg 1)) (← etyOfJson (arg 2)))
+  | "tparam" => pure (.tparam (← jNat (arg 1)))
+  | "inst" =>
+    -- ["inst", generic name, [argument types by parameter position], [[field name, open field type]...]]
+    let as ← (← (arg 2).getArr?).toList.mapM etyOfJson
+    let fs ← (← (arg 3).getArr?).toList.mapM fun e => do
+      let p ← e.getArr?
+      pure (nameCode (← (p[0]?.getD Json.null).getStr?), ← etyOfJson (p[1]?.getD Json.null))
+    pure (.inst (nameCode (← (arg 1).getStr?)) (fieldsOfL (as.zipIdx.map fun (t, i) => (i, t))) (fieldsOfL fs))
   | _ => throw s!"bad type tag {tag}"
 
 def clsName : Evo.Cls → String
@@ -506,11 +514,13 @@ def handle (j : Json) : Except String Json := do
     let env : Evo.Env := defs.filterMap fun d => match d with
       | .record n fs => some (n, .record n fs)
       | .enum n fl b sy => some (n, .enum n fl b sy)
+      | .inst n a b => some (n, .inst n a b)
       | _ => none
     let classes := newS.filterMap fun st => match Evo.findStep oldS st.name with
       | some (_, o) => some (Json.arr #[Json.str (toString st.name), Json.str (clsName (Evo.cmp (Evo.depth st.ty + Evo.depth o.ty) st.ty o.ty))])
       | none => none
-    pure (Json.mkObj [("verdict", Json.str (sevName (Evo.protoVerdict env newS oldS))), ("classes", Json.arr classes.toArray)])
+    pure (Json.mkObj [("verdict", Json.str (sevName (Evo.protoVerdict env newS oldS))), ("classes", Json.arr classes.toArray),
+      ("wf_new", Json.bool (Evo.wfSteps newS)), ("wf_old", Json.bool (Evo.wfSteps oldS))])
   | "evo_conv" =>
     -- the value the generated C++ produces when it reads a previous version's value (reading = true) or
     -- writes a latest-version value for a previous version (reading = false)
@@ -518,8 +528,9 @@ def handle (j : Json) : Except String Json := do
     let src ← etyOfJson (← j.getObjVal? "src")
     let dst ← etyOfJson (← j.getObjVal? "dst")
     let v ← valOfJson (← j.getObjVal? "val")
+    let hyp := Json.bool (Evo.wfT src && Evo.fitsT src v)
     match Evo.conv reading (Evo.depth src + Evo.depth dst + 2) src dst v with
-    | .ok x => pure (Json.mkObj [("ok", valToJson x)])
+    | .ok x => pure (Json.mkObj [("ok", valToJson x), ("wf_fits", hyp)])
     | .err m => pure (Json.mkObj [("err", Json.str m)])
     | .unsupported m => pure (Json.mkObj [("unsupported", Json.str m)])
   | "topo" =>
